@@ -184,6 +184,44 @@ def euler2d_hlle(H, mirror=False, consistency=False):
     _einfeldt_cuts(H, E2 + "numflux_hlle", mirror=mirror)
 
 
+def hlle_relational(H, fn1, fn2, mode, utrans=None):
+    """two-run hints for the Euler HLLE flux (C15): run 1 through functions fn1 = (roe, flux, two_d) gets the usual cuts,
+    run 2 through fn2 is rewritten to run 1: mode 'same' (same normal velocity: transposition, tangential reflection,
+    2-D vs 1-D) or 'mirror' (states exchanged and normal velocity negated); utrans maps run 1's URoe to run 2's."""
+    roe1, flux1, two1 = fn1
+    roe2, flux2, two2 = fn2
+    _roe_cuts(H, roe1, two_d=two1, mirror=False)
+    _einfeldt_cuts(H, flux1, mirror=False)
+    st = lambda var, what: (lambda H_, env=None, v=None: H_.store[(1, var)][what])
+    un1 = "unRoe" if two1 else "uRoe"
+    un2 = "unRoe" if two2 else "uRoe"
+    if mode == "same":
+        for fn, var in ((roe2, "Rrho"), (roe2, "cRoe"), (flux2, "sL"), (flux2, "sR")):
+            H.add(fn, var, rewrite(var, st(var, "real")), phase=2)
+            H.add(fn, var, _replace(st(var, "opaque")), phase=2)
+        return
+    one_over = lambda v: A.elementwise(lambda x: T.div(1, x), [v], name="inv")
+    H.add(roe2, "Rrho", rewrite("Rrho", lambda H_, env, v: one_over(H_.store[(1, "Rrho")]["real"])), phase=2)
+    H.add(roe2, "Rrho", _replace(lambda H_: one_over(H_.store[(1, "Rrho")]["opaque"])), phase=2)
+    H.add(roe2, un2, rewrite(un2, lambda H_, env, v: _neg(H_.store[(1, un1)]["real"])), phase=2)
+    H.add(roe2, "hRoe", rewrite("hRoe", lambda H_, env, v: H_.store[(1, "hRoe")]["real"]), phase=2)
+    if two2 and utrans is not None:
+        H.add(roe2, "URoe", rewrite("URoe", lambda H_, env, v: utrans(H_.store[(1, "URoe")]["real"])), phase=2)
+    H.add(roe2, "cRoe", rewrite("cRoe", st("cRoe", "real")), phase=2)
+    H.add(roe2, "cRoe", _replace(st("cRoe", "opaque")), phase=2)
+    H.add(flux2, "sL", rewrite("sL", lambda H_, env, v: _neg(H_.store[(1, "sR")]["real"])), phase=2)
+    H.add(flux2, "sL", _replace(lambda H_: _neg(H_.store[(1, "sR")]["opaque"])), phase=2)
+    H.add(flux2, "sR", rewrite("sR", lambda H_, env, v: _neg(H_.store[(1, "sL")]["real"])), phase=2)
+    H.add(flux2, "sR", _replace(lambda H_: _neg(H_.store[(1, "sL")]["opaque"])), phase=2)
+
+
+def install_relational(interp, fn1, fn2, mode, utrans=None):
+    H = Hints()
+    hlle_relational(H, fn1, fn2, mode, utrans)
+    interp.hints = H
+    return H
+
+
 TABLE = {
     ("shallowwater", "hll"): sw_hll,
     ("shallowwater", "rusanov"): sw_rusanov,
